@@ -5,6 +5,7 @@ CONSTANTS MaxHeight, MaxCols, Emit, WideCols    \* WideCols: a few wide rows (mo
 VARIABLES ncols, height, nvf, qidx, values, auth, root, corrupt
 vars == <<ncols, height, nvf, qidx, values, auth, root, corrupt>>
 
+BigCols == 1000000      \* the harness reads a declared count c + k * BigCols as c + 2^(64k)
 Cell(r, k) == Atom(<<"cell", r, k>>)
 Bad(k) == Atom(<<"bad", k>>)
 Rows(h, c) == [j \in 0..(2^h - 1) |-> [k \in 1..c |-> Cell(j, k)]]
@@ -26,13 +27,14 @@ Init ==
              \cup {<<"swap", p[1], p[2]>> : p \in {q \in (1..N) \X (1..N) : q[1] < q[2]}}
              \cup {<<"dropcell", i, 0>> : i \in 1..N}
              \cup {<<"auth", i, 0>> : i \in 1..Len(a)}
-             \cup {<<"cols", cc, 0>> : cc \in (1..(MaxCols + 1)) \ {c}} :  \* declared column count differs
+             \cup {<<"cols", cc, 0>> : cc \in (1..(MaxCols + 1)) \ {c}}    \* declared column count differs
+             \cup {<<"colshi", k, 0>> : k \in 1..3} :                        \* declared count c + 2^(64k) (stand-in: c + k * BigCols): same low machine word
       /\ (c \in WideCols =>                                   \* reduced catalogue for wide rows: first / 16th / 17th / last cell
             \/ x[1] \in {"none", "addcell", "root", "extra", "auth"}
             \/ (x[1] \in {"cell", "dropcell"} /\ x[2] \in {1, 16, 17, N})
             \/ (x[1] = "swap" /\ x[2] \in {1, 16} /\ x[3] \in {17, N})
-            \/ (x[1] = "cols" /\ x[2] = 1))
-      /\ ncols = IF x[1] = "cols" THEN x[2] ELSE c
+            \/ (x[1] = "cols" /\ x[2] = 1) \/ x[1] = "colshi")
+      /\ ncols = IF x[1] = "cols" THEN x[2] ELSE IF x[1] = "colshi" THEN c + x[2] * BigCols ELSE c
       /\ height = h /\ nvf = n /\ qidx = qs /\ corrupt = x
       /\ values = CASE x[1] = "cell" -> [vals EXCEPT ![x[2]] = Bad(x[2])]
                     [] x[1] = "swap" /\ x[2] < x[3] -> [vals EXCEPT ![x[2]] = vals[x[3]], ![x[3]] = vals[x[2]]]
